@@ -56,6 +56,8 @@ EXTRA_TREES = {
     "ign": dict(S.TREES["deep"], **IGN_EXTRA),
     "big": {"m/below.bin": _big(M - 1, 1), "m/at.bin": _big(M, 2), "above.bin": _big(M + 1, 3)},
     "link": {"a.txt": "a", "d/x.bin": "x", "d/l.txt": ("link", "../a.txt"), "top.lnk": ("link", "d/x.bin")},
+    # a sub-folder that is called like the root folder itself (the worlds' root folder is always named "t")
+    "selfname": {"t/t/x.bin": "x", "t/y.bin": "y", "z.bin": "z", "u/t/": ""},
     "dash": {"-n": "looks like an option", "--help/-v": "1", "#c": "2", "!neg": "3", " lead": "4", "trail ": "5"},
 }
 EXTRA_NESTED = {
@@ -64,6 +66,7 @@ EXTRA_NESTED = {
     "ign": [[], ["A"]],
     "big": [[], ["m"]],
     "link": [[], ["d"]],
+    "selfname": [[], ["t"], ["t/t", "t"]],
     "dash": [[], ["--help"]],
 }
 TREES = dict(S.TREES, **EXTRA_TREES)
@@ -633,6 +636,7 @@ QUICK_STD = {
     ("dash", 0),
     ("link", 1),
     ("lookalike", 1),
+    ("selfname", 1),
 }
 QUICK_BOTH_MODES = {("deep", 3), ("levels", 1), ("wide3", 1)}
 
@@ -1014,8 +1018,8 @@ def main():
         "root: add file / add empty file / add empty folder / rename / remove / swap two files' contents / move a file in; "
         "non-trivial = the statement fixes the exit code (0: tree identical at every create; 12: outer history has directory hashes "
         "and the mutated tree equals the tree at no create); other cases only demand exit in {0,12} without exception",
-        bound="16 trees (<= 13 entries, depth <= 4; flat, single, empty, only folders, prefix siblings, case pairs, NFC/NFD, XML-special, "
-        "U+2028, option-like names, duplicates, file symlinks, files of 2^20-1/2^20/2^20+1 bytes), <= 3 nested histories up to 3 deep, "
+        bound="17 trees (<= 13 entries, depth <= 4; flat, single, empty, only folders, prefix siblings, case pairs, NFC/NFD, XML-special, "
+        "U+2028, option-like names, a sub-folder named like the root, duplicates, file symlinks, files of 2^20-1/2^20/2^20+1 bytes), <= 3 nested histories up to 3 deep, "
         "17 history recipes (1-12 generations; -n, -sf, differing format sets, failed generation, repeated -h, -i/-ii patterns, "
         "negation added later), 5 format sets quick / 22 thorough, 7 root spellings, -v / -h, 2-5 time zones with mtimes around DST "
         "switches, a crash at 8 (quick) / every (thorough) file-system event of a second create, 6 (quick) / 250 (thorough) seeded random worlds; quick runs the basic mutation kinds on 15 worlds and a probe subset (root-level, deepest, one per nested history, one per class) elsewhere",
